@@ -174,11 +174,16 @@ type cancelFS struct {
 	at     int
 	n      int
 	cancel func()
+	failAt bool // the at-th Open fails (once) instead
 }
 
 func (c *cancelFS) Open(name string) (fs.File, error) {
 	if c.n == c.at {
 		c.cancel()
+		if c.failAt {
+			c.n++
+			return nil, &fs.PathError{Op: "open", Path: name, Err: errInjected}
+		}
 	}
 	c.n++
 	return c.FS.Open(name)
@@ -235,9 +240,9 @@ func (c *c12Case) runCancel(ctx *core.Ctx) {
 	_ = c12CallOn(bg, vuego.NewFS(count, vuego.WithComponents()), p, c.Entry, &bytes.Buffer{})
 	for j := 0; j < count.n; j++ {
 		cctx, cancel := context.WithCancel(context.Background())
-		cf := &cancelFS{FS: CatalogFiles.FS(), at: j, cancel: cancel}
+		cf := &cancelFS{FS: CatalogFiles.FS(), at: -1, cancel: cancel}
 		eng := vuego.NewFS(cf, vuego.WithComponents())
-		cf.n = 0 // opens during construction (config, components) do not count
+		cf.n, cf.at = 0, j // opens during construction (config, components) do not count
 		hw := &failWriter{limit: 1 << 30}
 		ctx.Eval(1)
 		err := c12CallOn(cctx, eng, p, c.Entry, hw)
@@ -247,6 +252,20 @@ func (c *c12Case) runCancel(ctx *core.Ctx) {
 		}
 	}
 	ctx.Count("cancel-file-positions", count.n)
+	// a transient fault at the j-th file access: that one Open fails, every other succeeds. An
+	// error with nothing written, or nil with the complete document - never a document that
+	// lacks what the unreadable file would have contributed (a layout dropped from the chain)
+	for j := 0; j < count.n; j++ {
+		ff := &cancelFS{FS: CatalogFiles.FS(), at: -1, cancel: func() {}, failAt: true}
+		eng := vuego.NewFS(ff, vuego.WithComponents())
+		ff.n, ff.at = 0, j // (the files read while the engine is built - config, components - are not part of a render)
+		hw := &failWriter{limit: 1 << 30}
+		ctx.Eval(1)
+		err := c12CallOn(bg, eng, p, c.Entry, hw)
+		if !judge("file-access-fails-once", j, err, hw.got.String()) {
+			return
+		}
+	}
 }
 
 // runProc: a registered node processor fails at every position of the evaluated DOM in turn.
@@ -518,7 +537,7 @@ func init() {
 	core.Register(&core.Check{
 		ID:    "C12",
 		Level: "fault_enumeration",
-		Rule: "every catalogue program (25 succeeding, 6 failing early/late/in include/in layout) x entry point {Load+Render, RenderFile, RenderString, RenderByte, RenderReader} x fault {none, cancelled context, writer failing at EVERY byte offset 0..len(output)-1 in seven styles: refusing the write and every later one, short write + error, refusing that one write only (a transient fault), accepting fewer bytes than given without reporting an error, reporting the error together with the full byte count (a metering wrapper), refusing / short write with io.EOF as the writer's error (a pipe whose reader went away); every other offset through a writer that also implements io.StringWriter}; plus, for the succeeding programs, a registered node processor that changes nothing and fails at EVERY node position of the DOM it is shown (post-processing and pre-processing), which must give an error and 0 bytes; plus a context that is cancelled while the render runs - when the writer receives its k-th byte, for every k, and when the j-th file is opened, for every j - after which the call must still be all or nothing; plus the exported serialiser (NewRenderer().Render) on the nodes of every succeeding program with the writer failing at every offset in the same seven styles. " +
+		Rule: "every catalogue program (25 succeeding, 6 failing early/late/in include/in layout) x entry point {Load+Render, RenderFile, RenderString, RenderByte, RenderReader} x fault {none, cancelled context, writer failing at EVERY byte offset 0..len(output)-1 in seven styles: refusing the write and every later one, short write + error, refusing that one write only (a transient fault), accepting fewer bytes than given without reporting an error, reporting the error together with the full byte count (a metering wrapper), refusing / short write with io.EOF as the writer's error (a pipe whose reader went away); every other offset through a writer that also implements io.StringWriter}; plus, for the succeeding programs, a registered node processor that changes nothing and fails at EVERY node position of the DOM it is shown (post-processing and pre-processing), which must give an error and 0 bytes; plus a context that is cancelled while the render runs - when the writer receives its k-th byte, for every k, and when the j-th file is opened, for every j - after which the call must still be all or nothing; the same with the j-th file access failing once instead (a transient fault), for every j; plus the exported serialiser (NewRenderer().Render) on the nodes of every succeeding program with the writer failing at every offset in the same seven styles. " +
 			"oracle: healthy writer: error => 0 bytes received, nil => exactly the reference bytes; failing writer: non-nil error, the bytes it accepted are a prefix of the reference, and the next healthy render on the same long-lived engine returns exactly the reference bytes; cancelled context: error and 0 bytes. non-trivial = all; distinct = (program, entry point)",
 		Bounds:      map[string]string{"quick": "all offsets of all programs; for the two programs with more than 4096 bytes of output the first and last 512 offsets and every 97th in between", "thorough": "all offsets of all programs"},
 		Assumptions: []string{"a writer that accepts fewer bytes than given without an error breaks io.Writer's contract; the render must still report it (io.ErrShortWrite)"},
